@@ -294,7 +294,24 @@ def single_state(model, p):
     return False
 
 
+def directed_cases():
+    """one directed case per known finding so that the KNOWN-FINDING lines do not depend on chance"""
+    iv = lambda cs: {c: 1.0 for c in cs}  # noqa
+    three = {"slate_to_candidates": {"W": ["W1"], "C": ["C1"], "X": ["X1"]},
+             "pref_intervals_by_bloc": {b: {"W": iv(["W1"]), "C": iv(["C1"]), "X": iv(["X1"])} for b in ("W", "C", "X")},
+             "cohesion_parameters": {b: {"W": 0.5, "C": 0.25, "X": 0.25} for b in ("W", "C", "X")},
+             "bloc_voter_prop": {"W": 0.0, "C": 0.0, "X": 1.0}}
+    one = {"slate_to_candidates": {"W": ["W1"]}, "pref_intervals_by_bloc": {"W": {"W": {"W1": 0.3}}},
+           "cohesion_parameters": {"W": {"W": 1.0}}, "bloc_voter_prop": {"W": 1.0}}
+    return [{"model": "name_PlackettLuce", "N": 2, "seed": 1, "params": three, "entry": "generate_profile"},
+            {"model": "slate_BradleyTerry", "N": 3, "seed": 1, "params": one, "entry": "mcmc"},
+            {"model": "name_BradleyTerry", "N": 3, "seed": 1, "params": one, "entry": "generate_profile_MCMC"}]
+
+
 def run(ctx):
+    if ctx.shard == 0:
+        for c in directed_cases():
+            ctx.guard("directed", check_case, ctx, c)
     for i in range(ctx.n(8000, 80000)):
         if ctx.expired():
             break
